@@ -77,6 +77,7 @@ class Terms:
         for (kind, bi, si, d) in self.defs.get(l, []):
             if kind == 'call':
                 name = mir.callee(d) or '<indirect>'
+                name = _unblanket(name, d.get('resolved_args'))
                 args = tuple(self.operand(a, stack) for a in d['args'])
                 alts.append(('call', name, args, bi))
                 continue
@@ -131,6 +132,42 @@ class Terms:
 
     def ret(self):
         return self.local(0)
+
+
+def _split_args(s):
+    """split the debug print of a generic-args list '[A, B<C, D>, E]' at top level"""
+    s = s.strip()
+    if s.startswith('[') and s.endswith(']'):
+        s = s[1:-1]
+    out, depth, cur = [], 0, ''
+    for ch in s:
+        if ch in '<([':
+            depth += 1
+        elif ch in '>)]':
+            depth -= 1
+        if ch == ',' and depth == 0:
+            out.append(cur.strip())
+            cur = ''
+        else:
+            cur += ch
+    if cur.strip():
+        out.append(cur.strip())
+    return out
+
+
+def _unblanket(name, rargs):
+    """the blanket impls  T: TryInto<U> / Into<U>  forward to  U::try_from(T) / U::from(T): name the real target"""
+    if not rargs:
+        return name
+    if name.endswith('TryInto<U>>::try_into') or name.endswith('Into<U>>::into'):
+        a = _split_args(rargs)
+        if len(a) == 2:
+            t, u = a
+            t = t.replace(', std::alloc::Global', '')
+            if name.endswith('try_into'):
+                return f'<{u} as std::convert::TryFrom<{t}>>::try_from'
+            return f'<{u} as std::convert::From<{t}>>::from'
+    return name
 
 
 def _has_loop(t, l):
